@@ -12,6 +12,7 @@ mod fam_store;
 mod fam_cursor;
 mod fam_meta;
 mod fam_hexenc;
+mod fam_ids;
 mod gen;
 mod model;
 
@@ -39,6 +40,7 @@ fn main() {
         "cursor" => fam_cursor::run(&mut rng, &tier, out),
         "meta" => fam_meta::run(&mut rng, &tier, out),
         "hexenc" => fam_hexenc::run(&mut rng, &tier, out),
+        "ids" => fam_ids::run(&mut rng, &tier, out),
         _ => {
             eprintln!("unknown family {}", fam);
             std::process::exit(2);
